@@ -112,5 +112,20 @@ int main(int argc, char **argv)
 	}
 	{ uint8_t hdr2[5] = {23, 3, 3, 0, 200}; tls_cbc_encrypt(&h, &ek4, seq, hdr2, pt2, 200, buf, &len); buf[20] ^= 4; hdr2[3] = (uint8_t)(len >> 8); hdr2[4] = (uint8_t)len;
 	  cap_begin(); rc = tls_cbc_decrypt(&h, &dk4, seq, hdr2, buf, len, out, &outlen); secret(k16, 16); secret(d, 32); secret(pt2, 200); cap_end("tls_cbc_decrypt_bad_mac", 0, rc); }
+	// ---- failure paths of the private-key readers: a container that holds this private scalar with ANOTHER key's public point (right and wrong
+	// branch of the consistency check), and every single-byte change of the plain containers; nothing of the scalar may be printed on any of them ----
+	{
+		SM2_KEY km = key; km.public_key = key2.public_key; SM2_KEY kr; uint8_t c1[512], c2[1024], c3[2048]; size_t n1 = 0, n2 = 0, n3 = 0; uint8_t *q; const uint8_t *cq; size_t ql; const uint8_t *at; size_t al;
+		q = c1; sm2_private_key_to_der(&km, &q, &n1); q = c2; sm2_private_key_info_to_der(&km, &q, &n2); q = c3; sm2_private_key_info_encrypt_to_der(&km, pass, &q, &n3);
+		cq = c1; ql = n1; cap_begin(); rc = sm2_private_key_from_der(&kr, &cq, &ql); secret(d, 32); cap_end("ecprivatekey_public_mismatch", 0, rc);
+		cq = c2; ql = n2; cap_begin(); rc = sm2_private_key_info_from_der(&kr, &at, &al, &cq, &ql); secret(d, 32); cap_end("privatekeyinfo_public_mismatch", 0, rc);
+		cq = c3; ql = n3; cap_begin(); rc = sm2_private_key_info_decrypt_from_der(&kr, &at, &al, pass, &cq, &ql); secret(d, 32); secret(pass, strlen(pass)); cap_end("pkcs8_public_mismatch", 0, rc);
+		n1 = n2 = 0; q = c1; sm2_private_key_to_der(&key, &q, &n1); q = c2; sm2_private_key_info_to_der(&key, &q, &n2);
+		char nm[64]; uint8_t *o1 = memmem(c1, n1, d, 32), *o2 = memmem(c2, n2, d, 32);     // where the scalar sits: a change inside it makes the changed scalar the secret
+		for (size_t i = 0; i < n1; i++) for (int b = 0; b < 8; b += 7) { c1[i] ^= (uint8_t)(1 << b); cq = c1; ql = n1; snprintf(nm, sizeof nm, "ecprivatekey_flip:%zu.%d", i, b);
+			cap_begin(); rc = sm2_private_key_from_der(&kr, &cq, &ql); secret(d, 32); if (o1) secret(o1, 32); cap_end(nm, 0, rc); c1[i] ^= (uint8_t)(1 << b); }
+		for (size_t i = 0; i < n2; i++) for (int b = 0; b < 8; b += 7) { c2[i] ^= (uint8_t)(1 << b); cq = c2; ql = n2; snprintf(nm, sizeof nm, "privatekeyinfo_flip:%zu.%d", i, b);
+			cap_begin(); rc = sm2_private_key_info_from_der(&kr, &at, &al, &cq, &ql); secret(d, 32); if (o2) secret(o2, 32); cap_end(nm, 0, rc); c2[i] ^= (uint8_t)(1 << b); }
+	}
 	vt_close(); return 0;
 }
